@@ -1,0 +1,37 @@
+//go:build verif
+
+package zygo
+
+// Contracts for the zvc verifier (kept in /verif/engine). Comment-only file:
+// with the build tag off it does not exist for the compiler; with the tag on
+// it contributes no declarations.
+
+//@ spec sgnS(a int64, b int64) int = ite(a < b, -1, ite(a > b, 1, 0))
+//@ spec sgnU(a uint64, b uint64) int = ite(a < b, -1, ite(a > b, 1, 0))
+//@ spec sgnF(a float64, b float64) int = ite(a < b, -1, ite(a > b, 1, 0))
+
+//@ func signumInt
+//@ C07 ensures r0 == sgnS(i, 0)
+//@ pure
+
+//@ func signumFloat
+//@ C07 ensures r0 == ite(f > 0, 1, ite(f < 0, -1, 0))
+//@ pure
+
+//@ func signumUint64
+//@ C07 ensures r0 == ite(i > 0, 1, 0)
+//@ pure
+
+//@ func compareInt
+//@ C07 ensures int-int: typeis(expr, *SexpInt) ==> r1 == nil && r0 == sgnS(i.Val, expr.(*SexpInt).Val)
+//@ C07 ensures int-float: typeis(expr, *SexpFloat) && !isNaN(expr.(*SexpFloat).Val) ==> r1 == nil && r0 == sgnF(float64(i.Val), expr.(*SexpFloat).Val)
+//@ C07 ensures int-nan: typeis(expr, *SexpFloat) && isNaN(expr.(*SexpFloat).Val) ==> r1 == nil && r0 > 1
+
+//@ func compareUint64
+//@ C07 ensures u-u: typeis(expr, *SexpUint64) ==> r1 == nil && r0 == sgnU(i.Val, expr.(*SexpUint64).Val)
+
+//@ func compareFloat
+//@ C07 ensures f-f: typeis(expr, *SexpFloat) && !isNaN(f.Val) && !isNaN(expr.(*SexpFloat).Val) ==> r1 == nil && r0 == sgnF(f.Val, expr.(*SexpFloat).Val)
+//@ C07 ensures f-f-nan: typeis(expr, *SexpFloat) && (isNaN(f.Val) || isNaN(expr.(*SexpFloat).Val)) ==> r1 == nil && r0 > 1
+//@ C07 ensures f-int: typeis(expr, *SexpInt) && !isNaN(f.Val) ==> r1 == nil && r0 == sgnF(f.Val, float64(expr.(*SexpInt).Val))
+//@ C07 ensures f-int-nan: typeis(expr, *SexpInt) && isNaN(f.Val) ==> r1 == nil && r0 > 1
